@@ -433,6 +433,14 @@ def c17_9(ctx):
 
 
 def c17_10(ctx):
+    from rules.bitcodecs import bit_field_cells, try_cells
+    out = try_cells(bit_field_cells, ctx)
+    if out is None:
+        out = _c17_10_text(ctx)
+    return out
+
+
+def _c17_10_text(ctx):
     out = []
     mod, fn = rl.get(ctx, "helper:bytes_to_bit_field")
     src = ast.unparse(fn)
@@ -565,7 +573,34 @@ def c17_16(ctx):
     return shared_obligations(ctx, ["helper", "merkleblock", "block", "network"], "the result would depend on something other than the arguments and the object's current state")
 
 
+def c17_17(ctx):
+    """compact bits -> target is coefficient * 256^(exponent - 3) (shifted down for exponent < 3), for *every* exponent byte: bits_to_target
+    compares the exponent with constants and uses the coefficient arithmetically, so it is evaluated for all 256 exponent bytes with five
+    coefficients whose three bytes differ (so that a byte taken from the wrong end shows) -- 1280 cells, bounded in the coefficient"""
+    from sa.cells import Evaluator, Raised, Undecided
+    spec = "helper:bits_to_target"
+    mod, fn = rl.get(ctx, spec)
+    cells = 0
+    for coef in (0x123456, 0x000001, 0x7FFFFF, 0x00FFFF, 0x010000):
+        for e in range(256):
+            cells += 1
+            bits = coef.to_bytes(3, "little") + bytes([e])
+            want = coef * 256 ** (e - 3) if e >= 3 else coef >> (8 * (3 - e))
+            try:
+                r = Evaluator(ctx.repo).call(spec, [bits])
+            except Raised as x:
+                return [ctx.bad(spec, "bits %s (exponent %d) raise %s" % (bits.hex(), e, x.name), fn, mod, key="compact-formula")]
+            except Undecided as u:
+                return [ctx.err(spec, "bits_to_target not evaluable: %s" % u, fn, mod)]
+            if r != want or isinstance(r, float):
+                return [ctx.bad(spec, "bits %s (coefficient %06x, exponent %d) decode to %s, the compact format says %s" % (
+                    bits.hex(), coef, e, ("%#x" % r) if isinstance(r, int) else repr(r), "%#x" % want), fn, mod, key="compact-formula")]
+    ctx.count("cells", cells)
+    return [ctx.ok(spec, "target = coefficient * 256^(exponent-3) for all 256 exponent bytes x 5 coefficients (%d cells)" % cells, fn, mod, key="compact-formula")]
+
+
 OBLIGATIONS = [
+    ("C17.17", "CELLS compact target (bounded)", c17_17),
     ("C17.16", "SHARED", c17_16),
     ("C17.15", "SET-ORDER", c17_15),
     ("C17.14", "MEMO", c17_14),
